@@ -109,12 +109,12 @@ Proof.
 Qed.
 
 (** C03 progress: a line always fits outside DATA/QUIT, a block always fits in DATA. *)
-Lemma step_fits_line c s l : st s <> DATA -> st s <> QUIT -> tls_enabled c = false ->
+Lemma step_fits_line c s l : st s <> DATA -> st s <> QUIT ->
   exists s' r d, step c s (L l) = Ok s' r d.
 Proof.
-  intros H1 H2 Ht.
+  intros H1 H2.
   unfold step, step_greet, step_ready, step_mail, step_mail_from.
-  destruct (st s) eqn:Es; try congruence; destruct l; rewrite ?Ht;
+  destruct (st s) eqn:Es; try congruence; destruct l;
     repeat match goal with
            | |- context [match ?x with _ => _ end] => destruct x eqn:?
            | |- context [if ?b then _ else _] => destruct b eqn:?
@@ -126,8 +126,8 @@ Lemma inv_rcpt_bound c s : Inv c s -> (Z.of_nat (length (rcpts s)) <= Z.max 0 (m
 Proof. intros [_ _ _ H _ _]; exact H. Qed.
 
 (** ** Per-step reply shape (C03 one_reply_per_line) and size rule (C06) *)
-Lemma ehlo_group c : group_ok 250 (ehlo_reply c) = true.
-Proof. unfold ehlo_reply; destruct (tls_enabled c); reflexivity. Qed.
+Lemma ehlo_group c s : group_ok 250 (ehlo_reply c s) = true.
+Proof. unfold ehlo_reply; destruct (tls_enabled c && negb (tls _)); reflexivity. Qed.
 
 Lemma one_group code : group_ok code (one code) = true.
 Proof. simpl. rewrite Z.eqb_refl. reflexivity. Qed.
@@ -138,7 +138,7 @@ Proof.
   unfold step, step_greet, step_ready, step_mail, step_mail_from, step_data in H.
   destruct (st s) eqn:Es; step_cases; simpl;
     rewrite ?Z.eqb_refl; auto using ehlo_group;
-    try (unfold ehlo_reply; destruct (tls_enabled c); reflexivity).
+    try (unfold ehlo_reply; destruct (tls_enabled c && negb (tls _)); reflexivity).
 Qed.
 
 Lemma step_size_ok c s it s' r d : step c s it = Ok s' r d -> size_ok c (it, r, d) = true.
@@ -201,7 +201,7 @@ Proof.
     try solve [do 3 eexists; split; [|reflexivity]; simpl; auto
               |exists true, false, 0%nat; split; [|try reflexivity]; simpl; auto
               |exists true, true, 0%nat; split; [|try reflexivity]; simpl; auto].
-  all: try (unfold ehlo_reply; destruct (tls_enabled c); simpl;
+  all: try (unfold ehlo_reply; destruct (tls_enabled c && negb (tls _)); simpl;
             exists true, false, 0%nat; split; [|reflexivity]; simpl; auto).
   all: try (exists true, true, 0%nat; split; [simpl; rewrite Hn by congruence; auto | reflexivity]).
   all: try (match goal with l : pline |- _ => destruct l; simpl end;
@@ -247,7 +247,7 @@ Proof.
               |eexists; split; [intros [?|?]; try congruence; simpl; reflexivity|reflexivity]].
   all: try solve [exists sender; split; [intros [?|?]; try congruence; auto|];
                   repeat match goal with |- context [match ?x with _ => _ end] => destruct x end; reflexivity].
-  all: try solve [unfold ehlo_reply; destruct (tls_enabled c); simpl;
+  all: try solve [unfold ehlo_reply; destruct (tls_enabled c && negb (tls _)); simpl;
                   exists sender; split; [intros [?|?]; congruence|reflexivity]].
   all: try solve [match goal with E : rcpts _ = [] |- _ => exists sender; rewrite E; split; auto end].
   all: try solve [exists sender; split; [intros [?|?]; congruence|];
